@@ -527,3 +527,73 @@ def fair_states(nk, fairmasks):
         if nz == z:
             return z
         z = nz
+
+
+def certify_top(S, t):
+    """Lasso certificates for a top-level quantified formula.
+
+    For t = E g every state of S.sat(t) must come with a path u.v^omega of the
+    structure that starts there, satisfies g under the independent evaluator
+    pathsem (nested state subformulas read from S) and, under fairness, whose
+    loop v meets every constraint; for t = A g every state outside S.sat(t)
+    must come with such a path for not g.  Returns the number of certificates
+    checked; raises RuntimeError when the reference contradicts itself."""
+    from . import pathsem
+    if t[0] not in ('A', 'E'):
+        return 0
+    nk = S.nk
+    val = S.sat(t)
+    if t[0] == 'E':
+        g = t[1]
+        mask = val
+    else:
+        g = ('not', t[1])
+        mask = nk.full & ~val
+    if S.atoms_need_fair:
+        # inside a fair path every state is fair: atoms read plainly
+        inner = Star(nk, fair=S.fair, atoms_need_fair=True,
+                     cap_nodes=S.cap)
+    else:
+        inner = S
+
+    def leaf(x, s):
+        return bool(inner.sat(x) >> s & 1)
+    n = 0
+    if g not in S.products:
+        S.exists(g)
+    for s in range(nk.n):
+        if not mask >> s & 1:
+            continue
+        u, v = S.witness(g, s)
+        path = u + v
+        ok = path[0] == s and all(
+            nk.succ[a] >> b & 1 for a, b in zip(path, path[1:] + [v[0]]))
+        if ok and S.fair:
+            vm = 0
+            for x in v:
+                vm |= 1 << x
+            ok = all(vm & fm for fm in S.fair)
+        ok = ok and pathsem.holds_on_lasso(g, u, v, leaf)
+        if not ok:
+            raise RuntimeError('reference certificate failed: %r %r %r %r'
+                               % (nk.to_json(), t, u, v))
+        n += 1
+    return n
+
+
+def fair_states_bruteforce(nk, fairmasks, maxlen=None):
+    """Fair states by lasso enumeration (independent of the SCC argument):
+    s is fair iff some lasso from s has a loop meeting every mask."""
+    from . import pathsem
+    if maxlen is None:
+        maxlen = nk.n * (len(fairmasks) + 1) + 1
+    out = 0
+    for s in range(nk.n):
+        for (u, v) in pathsem.all_lassos_of(nk, s, maxlen):
+            vm = 0
+            for x in v:
+                vm |= 1 << x
+            if all(vm & fm for fm in fairmasks):
+                out |= 1 << s
+                break
+    return out
